@@ -1,5 +1,6 @@
 import BSModel.Proofs.EncodingOut
 import BSModel.Proofs.EncodingOutUtf
+import BSModel.Proofs.EncodingOutSub
 /-! # C08 — output in any target encoding is valid, lossless and self-describing
 
 Property theorems only. `pyEncode`/`encodeWith` is `str.encode(codec, errors)`, `encodeImpl`/`prettifyImpl`/`encodeContentsImpl`
@@ -405,63 +406,58 @@ theorem content_rewritten_spellings :
     ∧ substituteContent (ofS "koi8-r") (ofS "text/html; xcharset=utf8") = ofS "text/html; xcharset=utf8" := by
   decide
 
-/-! ### the general shape `MIME; charset=OLD` -/
+/-! ### the general shape `PARAMS; charset=OLD; MORE` -/
 
-/-- **HTML4 style, general shape** (partial: one spelling of the key, generic media type and values; the other
-    spellings are `content_rewritten_spellings`). `MIME; charset=OLD` is rendered as `MIME; charset=E` for every target
-    name `E`, and as `MIME` for a Python-specific one. -/
-theorem meta_rewritten_content_partial (m old e : PStr) (hm : MimeLike m) (hold : ∀ c ∈ old, c ≠ 59)
-    (hws : old.dropWhile isReSpace = old) :
-    substituteContent e (m ++ ofS "; charset=" ++ old)
-      = if isPythonSpecific e then m else m ++ ofS "; charset=" ++ e := by
-  obtain ⟨hplain, c, cs, rfl, hsp, hcl⟩ := hm
-  have hc := hplain c (by simp)
-  have h10 : (c == 10) = false := by simp [hc.2]
-  have hlit : charsetReLiteral = charsetReLiteral.headD [] :: charsetReLiteral.tail := by decide
-  have hlit7 : charsetReLiteral.take 7 = charsetReLiteral.headD [] :: (charsetReLiteral.take 7).tail := by decide
-  have hkey : ∀ t, matchKey (c :: t) = none := by
-    intro t
-    have hd : (c :: t).dropWhile isReSpace = c :: t := by simp [List.dropWhile, hsp]
-    unfold matchKey
-    simp only [hd]
-    split
-    · rw [hlit7, matchClasses_head_none _ _ _ _ hcl]
-    · rw [hlit, matchClasses_head_none _ _ _ _ hcl]
-  have first : ∀ repl t, subGo repl 0 true (c :: t) = c :: subGo repl 0 false t := by
-    intro repl t
-    have hm : matchAt true (c :: t) = none := by
-      unfold matchAt
-      simp only [if_true, hkey, Option.map_none]
-      split
-      · rename_i heq; cases heq; exact absurd rfl hc.1
-      · rfl
-    rw [subGo, hm]
-    simp only [h10, Bool.and_false]
-  have tail : ∀ repl, subGo repl 0 false (ofS "; charset=" ++ old) = repl (ofS "; charset=") := by
-    intro repl
-    have hk := key_accepted old hws
-    have hlen : (old.takeWhile (fun c => c != 59)).length = old.length := by
-      rw [takeWhile_all _ old (fun x hx => by simp [hold x hx])]
-    have hma : matchAt false (59 :: (ofS " charset=" ++ old)) = some (10, 10 + old.length) := by
-      unfold matchAt
-      simp only [Bool.false_eq_true, if_false, hk, Option.map_some, matchLens, hlen]
-      simp [ofS]
-      omega
-    have e1 : ofS "; charset=" ++ old = 59 :: (ofS " charset=" ++ old) := by simp [ofS]
-    rw [e1, subGo, hma]
-    simp only
-    have hl : 10 + old.length - 1 = (ofS " charset=" ++ old).length := by simp [ofS]; omega
-    rw [hl, subGo_drop]
-    simp [ofS]
-  have step : ∀ repl, charsetReSub repl (c :: cs ++ ofS "; charset=" ++ old) = c :: cs ++ repl (ofS "; charset=") := by
-    intro repl
-    unfold charsetReSub
-    rw [List.append_assoc, List.cons_append, first, subGo_plain repl cs _ (fun x hx => hplain x (by simp [hx])), tail]
-    simp
-  unfold substituteContent
+/-- **HTML4 style, general shape.** For every content value of the form
+
+      `pre ; ws₀ KEY ws₁ = ws₂ old rest`
+
+    where `pre` is *quiet* (any text, earlier `;`-parameters and line breaks included, in which no line start and no `;`
+    is followed — after optional white space — by a letter the pattern accepts for `c`; decidable, `quietGo`), `KEY` spells
+    `charset` in any letter case the live pattern accepts, `ws₀ ws₁ ws₂` are any white space (`ws₁ ws₂` empty unless the live
+    pattern is the tolerant one), `old` is any value without `;` and `rest` is empty or begins the next `;`-parameter:
+    rendering for a target name `e` — any name — gives the same text with exactly `old` replaced by `e`, and goes on
+    rewriting `rest` the same way (so a second declaration further on is rewritten too); for a Python-specific `e` the
+    whole parameter, from its `;`, is removed. The only declarations not of this shape are those that open a line
+    without a `;` (the `^` alternative of the pattern): they are covered by `content_rewritten_spellings` (decided
+    instances) and `meta_rewritten_content_verbatim`. -/
+theorem meta_rewritten_content (pre w0 L w1 w2 old rest e : PStr)
+    (hq : quietGo true pre = true) (h0 : AllWs w0) (hL : SpellsKey L) (h1 : AllWs w1) (h2 : AllWs w2)
+    (htol : charsetReSpaceTolerant = true ∨ (w1 = [] ∧ w2 = []))
+    (hold : ∀ c ∈ old, c ≠ 59) (hws : old.dropWhile isReSpace = old) (hr : rest = [] ∨ ∃ m, rest = 59 :: m) :
+    substituteContent e (pre ++ 59 :: (w0 ++ (L ++ (w1 ++ (61 :: (w2 ++ (old ++ rest)))))))
+      = if isPythonSpecific e then
+          pre ++ subGo (fun _ => []) 0 (endBol (endBol true pre) (59 :: (w0 ++ (L ++ (w1 ++ (61 :: (w2 ++ old))))))) rest
+        else
+          pre ++ 59 :: (w0 ++ (L ++ (w1 ++ (61 :: (w2 ++ e)))))
+            ++ subGo (fun g1 => g1 ++ e) 0 (endBol (endBol true pre) (59 :: (w0 ++ (L ++ (w1 ++ (61 :: (w2 ++ old))))))) rest := by
+  unfold substituteContent charsetReSub
   split
-  · rw [step]; simp
-  · rw [step]; simp
+  · rw [subGo_general _ pre w0 L w1 w2 old rest true hq h0 hL h1 h2 htol hold hws hr]; simp
+  · rw [subGo_general _ pre w0 L w1 w2 old rest true hq h0 hL h1 h2 htol hold hws hr]; simp
+
+/-- the closed form when the declaration is the last parameter -/
+theorem meta_rewritten_content_last (pre w0 L w1 w2 old e : PStr)
+    (hq : quietGo true pre = true) (h0 : AllWs w0) (hL : SpellsKey L) (h1 : AllWs w1) (h2 : AllWs w2)
+    (htol : charsetReSpaceTolerant = true ∨ (w1 = [] ∧ w2 = []))
+    (hold : ∀ c ∈ old, c ≠ 59) (hws : old.dropWhile isReSpace = old) :
+    substituteContent e (pre ++ 59 :: (w0 ++ (L ++ (w1 ++ (61 :: (w2 ++ old))))))
+      = if isPythonSpecific e then pre else pre ++ 59 :: (w0 ++ (L ++ (w1 ++ (61 :: (w2 ++ e))))) := by
+  have := meta_rewritten_content pre w0 L w1 w2 old [] e hq h0 hL h1 h2 htol hold hws (Or.inl rfl)
+  simp only [List.append_nil] at this
+  rw [this]
+  split <;> simp [subGo]
+
+-- the hypotheses are satisfiable, by the spellings the input side reads: earlier parameters, upper case, spaces, a value
+-- with regex metacharacters, a following parameter
+example : quietGo true (ofS "text/html; x=y;\n q") = true := by decide
+example : quietGo true (ofS "application/xhtml+xml") = true := by decide
+example : quietGo true (ofS "a; charset=x") = false := by decide
+example : AllWs (ofS " \t") := by unfold AllWs; decide
+example : SpellsKey (ofS "ChArSeT") := by unfold SpellsKey; decide
+example : SpellsKey (ofS "charset") := by unfold SpellsKey; decide
+example : substituteContent (ofS "866") (ofS "text/html; x=y" ++ 59 :: (ofS " " ++ (ofS "CHARSET" ++ (ofS " " ++ (61 :: (ofS " " ++ (ofS "\\g<1>" ++ ofS "; z=1")))))))
+    = ofS "text/html; x=y; CHARSET = 866; z=1" := by decide
 
 /-- **The rewrite is literal, for ANY name.** Whenever `CHARSET_RE` finds a declaration in the original `content` value,
     the value rendered for a target name `e` — any code points whatsoever: leading digits (`866`, `1252`), backslashes,
@@ -487,7 +483,6 @@ example : substituteContent (ofS "latin\\1") (ofS "text/html; charset=utf8") = o
 example : substituteContent (ofS "\\g<1>$1%s{0}") (ofS "a; charset=\\1") = ofS "a; charset=\\g<1>$1%s{0}" := by decide
 example : charsetReSearch true (ofS "text/html; charset=utf8") = true := by decide
 
-example : MimeLike (ofS "text/html") := ⟨by decide, 116, ofS "ext/html", by decide, by decide, by decide⟩
 example : substituteContent (ofS "big5") (ofS "text/html" ++ ofS "; charset=" ++ ofS "utf8") = ofS "text/html; charset=big5" := by
   decide
 
@@ -511,61 +506,64 @@ theorem python_specific_table :
 
 /-! ## 5. re-detection: the output of an ASCII-compatible codec carries a declaration a reader finds -/
 
-/-- **Partial** (the finder is a simplification of dammit's `html_meta` regex without the `<meta` context, and the
-    declaration stands at the start of the rendering; the full claim — `original_encoding` of a re-parse resolves to the
-    target codec — is checked on the real code for every case). For an ASCII-compatible codec, the bytes of a rendering
-    that begins with the HTML5 declaration written for `e` let the finder return `e`. -/
-theorem redetect_charset_partial (C : Codec) (hc : C.AsciiCompat) (e rest : PStr) (he : NameLike e)
-    (hrest : C.Encodable rest) :
-    findDeclared (C.enc (ofS "<meta charset=\"" ++ e ++ [34] ++ rest)) = some e := by
-  rw [hc _ rest (ascii_prefix e he _ (by decide)) hrest]
-  have e1 : ofS "<meta charset=\"" ++ e ++ [34] ++ C.enc rest
-      = 60 :: 109 :: 101 :: 116 :: 97 :: 32 :: 99 :: 104 :: 97 :: 114 :: 115 :: 101 :: 116 :: 61 :: 34 :: (e ++ 34 :: C.enc rest) := by
+/-- **Partial in one respect only: the finder.** `findDeclared` takes the *first* `charset\s*=\s*["']?value` of the bytes;
+    dammit's `html_meta` regex takes the *last* one inside the first `<meta …>` tag that has one (C07 owns that regex; after
+    the both-styles repair every declaration of the rendered tag names the target, so the two choices agree on the value).
+    Everything else is general: for an ASCII-compatible codec, any ASCII text `pre` in which the word `charset` does not
+    occur (`quietDecl`, decidable: the `<html><head><title>…` before the tag, the tag's own earlier attributes), and the
+    HTML5 declaration as the renderer writes it for `e`, the bytes let the finder return `e`, whatever follows. The full
+    claim — `original_encoding` of a re-parse resolves to the target codec — is checked on the real code for every case. -/
+theorem redetect_charset_partial (C : Codec) (hc : C.AsciiCompat) (pre e rest : PStr) (hpre : ∀ c ∈ pre, c < 128)
+    (hq : quietDecl pre = true) (he : NameLike e) (hrest : C.Encodable rest) :
+    findDeclared (C.enc (pre ++ ofS "charset=\"" ++ e ++ [34] ++ rest)) = some e := by
+  have hasc : ∀ c ∈ pre ++ ofS "charset=\"" ++ e ++ [34], c < 128 := by
+    intro c hc
+    simp only [List.mem_append] at hc
+    rcases hc with ((hc | hc) | hc) | hc
+    · exact hpre c hc
+    · revert c; decide
+    · exact (he c hc).1
+    · simp at hc; omega
+  rw [hc _ rest hasc hrest]
+  have e1 : pre ++ ofS "charset=\"" ++ e ++ [34] ++ C.enc rest = pre ++ (ofS "charset=" ++ (34 :: (e ++ 34 :: C.enc rest))) := by
     simp [ofS]
-  rw [e1]
-  have step : ∀ X, findDeclared (60 :: 109 :: 101 :: 116 :: 97 :: 32 :: 99 :: 104 :: 97 :: 114 :: 115 :: 101 :: 116 :: 61 :: 34 :: X)
-      = match declValue X with | some v => some v | none => findDeclared (104 :: 97 :: 114 :: 115 :: 101 :: 116 :: 61 :: 34 :: X) := by
-    intro X; rfl
-  rw [step, declValue_name e _ he]
+  rw [e1, findDeclared_quiet pre _ hq, findDeclared_key_quoted e _ he]
 
-/-- the same for the HTML4 declaration as `meta_rewritten_content_partial` renders it (non-empty name) -/
-theorem redetect_content_partial (C : Codec) (hc : C.AsciiCompat) (e rest : PStr) (he : NameLike e) (hne : e ≠ [])
-    (hrest : C.Encodable rest) :
-    findDeclared (C.enc (ofS "<meta content=\"text/html; charset=" ++ e ++ [34] ++ rest)) = some e := by
-  rw [hc _ rest (ascii_prefix e he _ (by decide)) hrest]
+/-- the same for the HTML4 declaration (`… charset=e"`, non-empty name): `pre` is then everything up to the key, e.g.
+    `<html><head><meta content="text/html; ` -/
+theorem redetect_content_partial (C : Codec) (hc : C.AsciiCompat) (pre e rest : PStr) (hpre : ∀ c ∈ pre, c < 128)
+    (hq : quietDecl pre = true) (he : NameLike e) (hne : e ≠ []) (hrest : C.Encodable rest) :
+    findDeclared (C.enc (pre ++ ofS "charset=" ++ e ++ [34] ++ rest)) = some e := by
+  have hasc : ∀ c ∈ pre ++ ofS "charset=" ++ e ++ [34], c < 128 := by
+    intro c hc
+    simp only [List.mem_append] at hc
+    rcases hc with ((hc | hc) | hc) | hc
+    · exact hpre c hc
+    · revert c; decide
+    · exact (he c hc).1
+    · simp at hc; omega
+  rw [hc _ rest hasc hrest]
   obtain ⟨c, cs, rfl⟩ : ∃ c cs, e = c :: cs := by
     cases e with
     | nil => exact absurd rfl hne
     | cons c cs => exact ⟨c, cs, rfl⟩
-  have hcn := he c (by simp)
-  have e1 : ofS "<meta content=\"text/html; charset=" ++ (c :: cs) ++ [34] ++ C.enc rest
-      = 60 :: 109 :: 101 :: 116 :: 97 :: 32 :: 99 :: 111 :: 110 :: 116 :: 101 :: 110 :: 116 :: 61 :: 34 :: 116 :: 101 :: 120 :: 116
-        :: 47 :: 104 :: 116 :: 109 :: 108 :: 59 :: 32 :: 99 :: 104 :: 97 :: 114 :: 115 :: 101 :: 116 :: 61 :: (c :: (cs ++ 34 :: C.enc rest)) := by
+  have e1 : pre ++ ofS "charset=" ++ (c :: cs) ++ [34] ++ C.enc rest = pre ++ (ofS "charset=" ++ (c :: cs ++ 34 :: C.enc rest)) := by
     simp [ofS]
-  rw [e1]
-  have step : ∀ X, findDeclared (60 :: 109 :: 101 :: 116 :: 97 :: 32 :: 99 :: 111 :: 110 :: 116 :: 101 :: 110 :: 116 :: 61 :: 34 :: 116 :: 101 :: 120 :: 116
-        :: 47 :: 104 :: 116 :: 109 :: 108 :: 59 :: 32 :: 99 :: 104 :: 97 :: 114 :: 115 :: 101 :: 116 :: 61 :: X)
-      = match declAfterKey (61 :: X) with | some v => some v | none => findDeclared (104 :: 97 :: 114 :: 115 :: 101 :: 116 :: 61 :: X) := by
-    intro X; rfl
-  rw [step]
-  have hq : stripQuote (c :: (cs ++ 34 :: C.enc rest)) = c :: (cs ++ 34 :: C.enc rest) := by
-    have h34 : c ≠ 34 := by intro h; subst h; simp [isTerminator] at hcn
-    have h39 : c ≠ 39 := by intro h; subst h; simp [isTerminator] at hcn
-    unfold stripQuote
-    split
-    · rename_i heq; cases heq; exact absurd rfl h34
-    · rename_i heq; cases heq; exact absurd rfl h39
-    · rfl
-  have hk : declAfterKey (61 :: c :: (cs ++ 34 :: C.enc rest)) = some (c :: cs) := by
-    have hd1 : (61 :: c :: (cs ++ 34 :: C.enc rest)).dropWhile isAsciiSpace = 61 :: c :: (cs ++ 34 :: C.enc rest) := by rfl
-    have hd2 : (c :: (cs ++ 34 :: C.enc rest)).dropWhile isAsciiSpace = c :: (cs ++ 34 :: C.enc rest) := by
-      simp [List.dropWhile, hcn.2.2]
-    unfold declAfterKey
-    rw [hd1]
-    simp only [hd2, hq]
-    exact declValue_name (c :: cs) _ he
-  rw [hk]
+  rw [e1, findDeclared_quiet pre _ hq, findDeclared_key_bare c cs _ he]
 
+/-- **BOM-carrying output.** `utf-32` output is always recognised by its mark, `utf-16` output whenever the rendering does
+    not begin with U+0000 (a rendering begins with `<` or text) — the "(and those written with a byte-order mark)" clause. -/
+theorem redetect_bom (s : PStr) (c : Nat) (cs : PStr) (h0 : c ≠ 0) (hc : c < 0x10000) :
+    sniffBom (utf32Codec.enc s) = some .utf32le ∧ sniffBom (utf16Codec.enc (c :: cs)) = some .utf16le :=
+  ⟨sniff_utf32 s, sniff_utf16 c cs h0 hc⟩
+
+/-- without that proviso it fails: a `utf-16` document that begins with U+0000 carries `FF FE 00 00`, the UTF-32-LE mark -/
+theorem redetect_bom_needs_nonzero_start : sniffBom (utf16Codec.enc [0, 60]) = some .utf32le := by decide
+
+example : quietDecl (ofS "<html><head><title>chars et al</title><meta a=\"c\" ") = true := by decide
+example : quietDecl (ofS "<meta content=\"text/html; x=CHARSET; ") = false := by decide
+example : findDeclared (utf8Codec.enc (ofS "<html><head><meta " ++ ofS "charset=\"" ++ ofS "utf-8" ++ [34] ++ [0x2603, 0x1F600])) = some (ofS "utf-8") := by
+  decide
 example : findDeclared (asciiCodec.enc (decodeNode (some (ofS "ascii")) [] metaCharset)) = some (ofS "ascii") := by decide
 example : findDeclared (latin1Codec.enc (decodeNode (some (ofS "latin-1")) [] metaContent)) = some (ofS "latin-1") := by decide
 example : NameLike (ofS "iso-8859-15") := by unfold NameLike; decide
